@@ -5,6 +5,7 @@ package server
 import (
 	"fmt"
 	"math/rand"
+	"reflect"
 	"sort"
 	"strings"
 	"sync"
@@ -444,7 +445,7 @@ func (w *c07hWorld) viol(sig, opKind string, extra map[string]any) {
 	for k, v := range extra {
 		d[k] = v
 	}
-	if strings.Contains(sig, "concurrent-login") {
+	if strings.Contains(sig, "concurrent-login") || strings.Contains(sig, "interface-lookup") {
 		w.run.Violation(sig, d)
 		return
 	}
@@ -520,9 +521,30 @@ func (w *c07hWorld) check(opKind string) {
 			}
 		}
 	}
+	adapter := NewSessionManagerAdapter(sm)
 	for _, x := range ids {
 		k := sm.GetControlConnectionByClientID(x)
+		// interface-returning accessors (used by the HTTP layer): for an absent client the result
+		// must be a nil interface, otherwise it must be the connection the typed lookup returns
+		ci := sm.GetControlConnectionInterface(x)
+		phantom := false
+		if ci != nil {
+			if rv := reflect.ValueOf(ci); rv.Kind() == reflect.Ptr && rv.IsNil() {
+				phantom = true
+			} else if cc, ok := ci.(*session.ControlConnection); !ok || cc != k {
+				w.viol("C07:interface-lookup-disagrees-with-typed-lookup", opKind, map[string]any{"client_id": x})
+			}
+		} else if k != nil {
+			w.viol("C07:interface-lookup-disagrees-with-typed-lookup", opKind, map[string]any{"client_id": x})
+		}
+		acc := adapter.GetControlConnectionInterface(x)
+		if phantom || (k == nil && acc != nil) {
+			w.viol("C07:interface-lookup-returns-typed-nil-for-absent-client", opKind, map[string]any{"client_id": x, "client": w.name(x), "session_accessor_phantom": phantom, "http_adapter_accessor_non_nil": acc != nil})
+		} else if k != nil && (acc == nil || acc.GetConnID() != k.ConnID) {
+			w.viol("C07:interface-lookup-disagrees-with-typed-lookup", opKind, map[string]any{"client_id": x, "accessor": "http-adapter"})
+		}
 		if k == nil {
+			w.run.Count("absent_client_lookups", 1)
 			continue
 		}
 		w.mu.Lock()
@@ -653,6 +675,7 @@ func TestVerifC07HandshakeRandom(t *testing.T) {
 	run.Floor("cloud_faults_on_disconnect", 50)
 	run.Floor("phase1_on_authenticated_conn_naming_online_client", 20)
 	run.Floor("config_push_write_failures", 50)
+	run.Floor("absent_client_lookups", 100)
 }
 
 // TestVerifC07HandshakeConcurrent: 8 goroutines, one connection slot each, real
